@@ -1044,6 +1044,10 @@ func (e *Exec) assumeRefsOld(v Val, pc, alloc string) {
 		if len(v.F) == 4 {
 			e.assume(mkImp(pc, app("<=", v.sBase(), alloc)))
 		}
+	case *types.Interface:
+		if v.S != "" && v.Dyn == nil {
+			e.assume(mkImp(pc, app("<=", app("iref", v.S), alloc)))
+		}
 	case *types.Struct:
 		for i := range v.F {
 			if i < u.NumFields() {
